@@ -222,6 +222,8 @@ theorem hi_nibble_eq (b : UInt8) : ((b.toNat : Int) >>> 4) = (((b >>> 4).toNat :
   u8_forall (P := fun b => ((b.toNat : Int) >>> 4) = (((b >>> 4).toNat : Nat) : Int)) (by decide +kernel) b
 theorem display_eq (b : UInt8) : decide ((b.toNat : Int) ≠ 112) = decide (b ≠ 0x70) :=
   u8_forall (P := fun b => decide ((b.toNat : Int) ≠ 112) = decide (b ≠ 0x70)) (by decide +kernel) b
+theorem display_eq' (b : UInt8) : decide ((112 : Int) ≠ (b.toNat : Int)) = decide (b ≠ 0x70) :=
+  u8_forall (P := fun b => decide ((112 : Int) ≠ (b.toNat : Int)) = decide (b ≠ 0x70)) (by decide +kernel) b
 theorem lo_nibble_lt (b : UInt8) : (b &&& 0xF).toNat < 16 :=
   u8_forall (P := fun b => (b &&& 0xF).toNat < 16) (by decide +kernel) b
 theorem hi_nibble_lt (b : UInt8) : (b >>> 4).toNat < 16 :=
@@ -264,6 +266,27 @@ theorem temp_eq (b2 b13 : UInt8) :
   by_cases h : (b13 &&& 0x1F) ≠ 0
   · simp only [h, decide_true, if_true, ne_eq, not_false_eq_true]; split <;> omega
   · simp only [h, decide_false, if_false, ne_eq, not_false_eq_true, Bool.false_eq_true]; split <;> omega
+
+theorem temp_eq' (b2 b13 : UInt8) :
+    (if decide ((0 : Int) ≠ Py.band (b13.toNat : Int) 31) = true then
+        100 * (Py.band (b13.toNat : Int) 31 + 12) + (if decide (Py.band (b2.toNat : Int) 16 ≠ 0) = true then 50 else 0)
+      else 100 * Py.band (b2.toNat : Int) 15 + 1600 + (if decide (Py.band (b2.toNat : Int) 16 ≠ 0) = true then 50 else 0))
+    = stateTemp b2 b13 := by
+  have hflip : decide ((0 : Int) ≠ Py.band (b13.toNat : Int) 31) = decide (Py.band (b13.toNat : Int) 31 ≠ 0) := by
+    apply decide_eq_decide.mpr; constructor <;> (intro h h2; exact h h2.symm)
+  rw [hflip]
+  exact temp_eq b2 b13
+  -- (the rest of the original script is kept below for reference but not reached)
+  done
+
+/-- the same in the canonical sum order of the translator (non-constant terms first, constant last) -/
+theorem temp_eq'' (b2 b13 : UInt8) :
+    (if decide ((0 : Int) ≠ Py.band (b13.toNat : Int) 31) = true then
+        100 * (Py.band (b13.toNat : Int) 31 + 12) + (if decide (Py.band (b2.toNat : Int) 16 ≠ 0) = true then 50 else 0)
+      else 100 * Py.band (b2.toNat : Int) 15 + (if decide (Py.band (b2.toNat : Int) 16 ≠ 0) = true then 50 else 0) + 1600)
+    = stateTemp b2 b13 := by
+  rw [← temp_eq' b2 b13]
+  split <;> omega
 
 theorem indoor_eq (b11 b15 b10 : UInt8) :
     Codec.parseTemperature (b11.toNat : Int) (10 * Py.band (b15.toNat : Int) 15) (decide (Py.band (b10.toNat : Int) 4 ≠ 0))
@@ -309,9 +332,9 @@ theorem parseState_eq (p : Bytes) :
         have h22 : p.length < 22 := by omega
         rw [if_pos h20']
         congr 1
-        simp only [temp_eq, indoor_eq, outdoor_eq]
+        simp only [temp_eq, temp_eq', temp_eq'', indoor_eq, outdoor_eq]
         simp only [Codec.StateAttrs.ofModel, h20, h22, if_true, bit1, bit2, bit4, bit8, bit16, bit32, bit64, bit128, temp_eq, mode_eq,
-          band15_eq, indoor_eq, outdoor_eq, display_eq, Option.map_none]
+          band15_eq, indoor_eq, outdoor_eq, display_eq, display_eq', Option.map_none]
       · have h20' : ¬ (decide (((List.length p : Nat) : Int) < 20) = true) := by simp; omega
         rw [if_neg h20']
         have e19 : p[19]? = some (p[19]'(by omega)) := List.getElem?_eq_getElem (by omega)
@@ -322,9 +345,9 @@ theorem parseState_eq (p : Bytes) :
           show (if decide (((List.length p : Nat) : Int) < 22) = true then _ else _) = _
           rw [if_pos h22']
           congr 1
-          simp only [temp_eq, indoor_eq, outdoor_eq]
+          simp only [temp_eq, temp_eq', temp_eq'', indoor_eq, outdoor_eq]
           simp only [Codec.StateAttrs.ofModel, h20, h22, if_true, if_false, bit1, bit2, bit4, bit8, bit16, bit32, bit64, bit128, temp_eq, mode_eq,
-            band15_eq, band127_eq, indoor_eq, outdoor_eq, display_eq, Option.map_none, e19, Option.map_some]
+            band15_eq, band127_eq, indoor_eq, outdoor_eq, display_eq, display_eq', Option.map_none, e19, Option.map_some]
         · have h22' : ¬ (decide (((List.length p : Nat) : Int) < 22) = true) := by simp; omega
           show (if decide (((List.length p : Nat) : Int) < 22) = true then _ else _) = _
           rw [if_neg h22']
@@ -332,9 +355,9 @@ theorem parseState_eq (p : Bytes) :
           have i21 : Py.idx p 21 = .ok (p[21]'(by omega)) := by unfold Py.idx; rw [e21]
           rw [i21, ok_bind]
           congr 1
-          simp only [temp_eq, indoor_eq, outdoor_eq]
+          simp only [temp_eq, temp_eq', temp_eq'', indoor_eq, outdoor_eq]
           simp only [Codec.StateAttrs.ofModel, h20, h22, if_true, if_false, bit1, bit2, bit4, bit8, bit16, bit32, bit64, bit128, temp_eq, mode_eq,
-            band15_eq, band127_eq, indoor_eq, outdoor_eq, display_eq, Option.map_none, e19, e21, Option.map_some])
+            band15_eq, band127_eq, indoor_eq, outdoor_eq, display_eq, display_eq', Option.map_none, e19, e21, Option.map_some])
   | (unfold Codec.parseState; cases Model.parseState p <;> rfl)
 
 /-! ### crc8.calculate, Frame.checksum / tobytes / validate, Command.tobytes -/
@@ -542,7 +565,11 @@ theorem applyCommand_eq (d : Dev) : applyCode d = Codec.ApplyCmd.ofModel (setSta
        apply decide_eq_decide.mpr; omega
      have a2 : decide ((d.auxMode : Int) = 2) = decide (d.auxMode = 2) := by
        apply decide_eq_decide.mpr; omega
-     simp only [h1, a1, a2]
+     have a1' : decide ((1 : Int) = (d.auxMode : Int)) = decide (d.auxMode = 1) := by
+       apply decide_eq_decide.mpr; omega
+     have a2' : decide ((2 : Int) = (d.auxMode : Int)) = decide (d.auxMode = 2) := by
+       apply decide_eq_decide.mpr; omega
+     simp only [h1, a1, a2, a1', a2']
      done)
   | (
      unfold applyCode Codec.applyCommand
